@@ -38,7 +38,10 @@ def one(name):
             ev = json.load(open(os.path.join(scratch, "out", "evidence", "%s.json" % pid)))
             nref = len(ev["coverage"].get("refuted", []))
             nund = len(ev["coverage"].get("undecided", []))
-            what = "[D:%d refuted, %d undecided] %s" % (nref, nund, what)
+            why = ""
+            if nund and not nref:
+                why = " {undecided: %s}" % "; ".join(sorted({(u.get("reason") or "")[:90] for u in ev["coverage"]["undecided"]}))[:260]
+            what = "[D:%d refuted, %d undecided] %s%s" % (nref, nund, what, why)
         except Exception:
             pass
         nc = os.path.join(d, "NOT_COUNTED")
